@@ -34,8 +34,8 @@ CLAIMS.update({
         "small widths); find_good_cmap_subtable follows the documented preference order over 3 symbolic encoding records; Mac Roman "
         "conversions are mutual inverses for all 256 bytes and all chars; offset_to_index by MIR->SMT; the encoding dispatch of "
         "Font::lookup_glyph_index on a Font built by the real Font::new: Windows Symbol (U+F020..U+F0FF and their single-byte aliases reach the "
-        "same glyph) and, thorough, Mac Roman for every char.",
-        "Outside: format 2 (beyond the panic-freedom in C01), more segments/groups than stated, Big5 (encoding_rs), OS/2 usFirstCharIndex other than the default, "
+        "same glyph) and, thorough, Mac Roman for every char. Format 2 (550-byte subtable, all 256 subHeaderKeys, 3 subheaders and 4 glyphIndexArray entries symbolic): single-byte codes map through subheader 0, two-byte codes through their lead byte's subheader, idDelta modulo 65536 on non-zero entries, sub-arrays outside the table are errors; the parser takes max(key)/8+1 subheaders; thorough: format 2 enumeration lists exactly the single lookups.",
+        "Outside: format 2 codes that are not valid in the encoding (only panic-freedom), more segments/groups than stated, Big5 (encoding_rs), OS/2 usFirstCharIndex other than the default, "
         "variation-selector presentation matching, the 0xFFFF idRangeOffset work-around. Oracles are my restatement of the OpenType cmap chapter.",
         "DESIGN.md section 6, C06", TECH_KANI + "; " + TECH_SMT),
     "C13": (
@@ -57,7 +57,7 @@ CLAIMS.update({
         "uncompressed table_data (88 B), WOFF2 header and directory entry, head/hhea/maxp, hmtx with any counts + metric lookups, name, sbix (1 strike, 2 glyphs, every offset and glyph id), cmap "
         "header + any subtable at any offset + map_glyph (44 B: formats 4/6/10/12), kern format 2 with hostile offsets, fvar header; fvar/avar "
         "normalisation with hostile axis values; Coverage/ClassDef/Anchor with counts 0/1/2; CFF INDEX with hostile offsets; WOFF2 transformed "
-        "glyf header with 65535 glyphs and any bbox size; WOFF2 transformed hmtx over an untransformed glyf.",
+        "glyf header with 65535 glyphs and any bbox size; WOFF2 transformed hmtx over an untransformed glyf; item variation data sub-tables with any counts (wordDeltaCount above regionIndexCount, LONG_WORDS) and any row index.",
         "Count fields that size a Vec are concrete per harness (family listed in evidence), so a panic that needs another count is not found. Outside: "
         "buffers longer than stated, zlib/brotli, CFF/CFF2 DICTs and charstrings, SimpleGlyph::read_dep, post names, cmap format 2, subset/instance pipelines, "
         "Font::new. One open known finding (Fixed::neg overflow on fvar spans >= 32768.0).",
@@ -87,7 +87,7 @@ CLAIMS.update({
         "set) for every flag word over a GDEF with symbolic glyph classes, attachment classes and filtering set; MatchContext::matches "
         "(by glyph id, by class, by coverage; backtrack/input/lookahead 1-1-1, 2-0-1, 0-2-2) equals a reference matcher over non-skipped glyphs "
         "for every run of 5 glyphs, position and flag; find_prev/next/nth/first and Ligature::matches likewise; FeatureVariations: first matching record wins, a condition set is a conjunction, axis ranges are inclusive at both ends, unknown condition formats and missing axes never match (2 records, 2 conditions, 2 axes, every 2.14 value); GSUB subtables parsed from bytes with the coverage cache stubbed to an uncached read: SingleSubst formats 1 (delta modulo 65536) and 2, MultipleSubst, AlternateSubst and LigatureSubst return the sequence / alternates / ligature set of the glyph's coverage index with every glyph value symbolic; Context format 1 tries the rules of the glyph's rule set in font order and returns the lookup records of the first rule that matches; ReverseChainSingleSubst substitutes a covered glyph between matching backtrack/lookahead glyphs; through hook H9 the application kernels singlesubst (first covering subtable wins, Direct origin, vertical-alternate flag under vert/vrt2), alternatesubst (requested alternate or no change) and ligature selection (first ligature of the set, in font order, whose components match).",
-        "Outside (the larger part of the property): lookup ordering, per-type application loops, nested lookups, extension/reverse-chaining lookups, "
+        "Outside (the larger part of the property; apply_subst_context is reached through hook H9 only with an empty lookup-record list, where it must report the span from the first to the last matched input glyph including skipped glyphs - run of 4 glyphs, symbolic classes and flag): lookup ordering, per-type application loops, nested lookups, extension/reverse-chaining lookups, "
         "feature variations, ligature application - all behind LayoutCache (std HashMap) or Vec<RawGlyph> surgery. Seeded changes in those areas are missed.",
         "DESIGN.md section 6, C04", TECH_KANI),
     "C05": (
@@ -103,8 +103,8 @@ CLAIMS.update({
         "pattern, the command list delivered to a recording OutlineSink through GlyfTable::visit equals an independent statement of the TrueType "
         "rule (start point choice, implied midpoints incl. across the closing edge, one move_to and one close per contour); 2 points with every "
         "i16 coordinate in the thorough tier; the component transform: a stored uniform, x/y or 2x2 scale with EVERY 2.14 entry converts to the matrix that maps "
-        "(1,0) to (xscale, scale01) and (0,1) to (scale10, yscale), the convention of the glyf chapter (this found the transposed matrix, repaired).",
-        "Outside: the composite walk itself (offsets, nesting limit, point-number placement: five variants passed 8.8 GB after 19 min), the packed flag/coordinate decoder (SimpleGlyph::read_dep), > 4 points. "
+        "(1,0) to (xscale, scale01) and (0,1) to (scale10, yscale), the convention of the glyf chapter (this found the transposed matrix, repaired); the packed flag/coordinate decoder SimpleGlyph::read_dep on one contour of 3 points with every flag bit and coordinate byte symbolic, one harness per REPEAT shape (none, first flag repeated once or twice; thorough: second flag, zero count): short vectors with sign bit, same-as-previous, word deltas, running sums, on-curve bits equal a decoder written from the glyf chapter.",
+        "Outside: the composite walk itself (offsets, nesting limit, point-number placement: five variants passed 8.8 GB after 19 min), packed glyphs of more than 3 points or repeat counts above 2, > 4 points in the walk. "
         "Assumption: pathfinder_simd built with pf-no-simd (scalar Vector2F).",
         "DESIGN.md section 6, C16", TECH_KANI),
     "C09": (
@@ -125,8 +125,8 @@ CLAIMS.update({
         "through hook H2: EVERY i32 integer and offset operand survives write->read with the shortest legal encoding and exact consumption, and "
         "every integer lead byte decodes per the DICT table; the INDEX offset-array serialiser (hook H5) picks the smallest offSize that holds "
         "the last offset, stores every offset big-endian and refuses offsets beyond 32 bits; post header byte-exact; offset_size thresholds by "
-        "MIR->SMT for all usize.",
-        "Outside: whole CFF/CFF2 tables, DICT/charset/FDSelect writers, Real operands, OS/2 and the owned cmap writer (CBMC out of memory), post names, glyf records, item variation "
+        "MIR->SMT for all usize; CFF custom charsets (formats 0/1/2, 5 glyphs) and FDSelect (formats 0/3): bytes -> read -> write reproduces the bytes consumed; Index::calculate_size equals the size of the INDEX the serialiser then writes for one or two objects of any size up to 70000 bytes (offSize boundaries 255/256, 65535/65536); a composite glyph of two components (2x2 transform on the second) written from a value has the specified layout with the instruction block iff ANY component carries WE_HAVE_INSTRUCTIONS, and the reader returns components, transform and instructions of such a record.",
+        "Outside: whole CFF/CFF2 tables, DICT writers, owned (Vec-backed) charsets, Real operands, OS/2 and the owned cmap writer (CBMC out of memory), post names, simple glyph records, item variation "
         "store (its writer defect is recorded by reading + native run only, DESIGN.md section 7), HmtxTable::write (CBMC out of memory).",
         "DESIGN.md section 6, C15", TECH_KANI + "; " + TECH_SMT),
     "C10": (
@@ -145,7 +145,7 @@ CLAIMS.update({
         "table restated) and transformLength presence; the transformed-glyf decoder yields, for 1 glyph x 1 contour x 1 point and EVERY flag "
         "byte and data byte of the 1-, 2- and 3-byte triplet classes (4-byte: thorough), exactly the dx/dy/on-curve the W3C triplet "
         "arithmetic prescribes (this covers all 128 COORD_LUT rows); 2 points: cumulative coordinates, endPts, instructions, explicit vs "
-        "computed bounding box; transformed hmtx reconstruction for flags 0-3 with 2-3 glyphs.",
+        "computed bounding box; transformed hmtx reconstruction for flags 0-3 with 2-3 glyphs; a one-component composite (thorough: two components with WE_HAVE_INSTRUCTIONS on either).",
         "Outside: brotli, Woff2Font::read, collections, the eager provider (HashMap), loca reconstruction, composite records, > 2 points, > 1 contour. "
         "One open known finding (hmtx tail rebuilt from the wrong glyphs) is listed in known_findings.json.",
         "DESIGN.md section 6, C11", TECH_KANI),
@@ -161,7 +161,7 @@ CLAIMS.update({
         "coinciding neighbours -> common delta or 0, target outside the neighbours' span -> the delta of the nearer neighbour, inside -> linear interpolation; "
         "DeltaSetIndexMap::entry for formats 0 and 1, every entryFormat byte, every index (clamped to the last entry), short buffers refused; packed point "
         "numbers (one/two-byte count, byte/word runs, 'all points') and packed deltas (zero/int8/int16 runs, two runs) decode to the specified values "
-        "with exact consumption.",
+        "with exact consumption; HVAR glyph -> delta-set mapping (hook H10): the index map entry of the glyph id, the LAST entry for ids at or beyond mapCount, no explicit entry without a map.",
         "Thin claim. Outside: everything that iterates over a glyph or a font (variations::instance, glyf/variation.rs apart from do_infer, IUP contour walk, phantom points, "
         "HVAR/MVAR wrappers), ItemVariationStore::adjustment and TupleVariationStore parsing (CBMC out of memory at 14 GB), cvar, shared point numbers, CFF2 blend (decided under C18).",
         "DESIGN.md section 6, C12", TECH_KANI),
@@ -176,7 +176,7 @@ CLAIMS.update({
         "drawing before any moveto are errors. Number encodings: every lead byte and operand byte of the 1-, 2-byte and 16.16 forms decodes per "
         "TN5177 table 3; the CFF2->CFF operand writer emits the shortest form and round-trips for every i16 and every 16.16 value. Subroutine bias "
         "107/1131/32768 and biased index conversion for every i32 operand and every INDEX size. CFF2 blend: for k = 0, 1, 2 regions and n = 1, 2 "
-        "values, result i = default i + sum_j scalar_j * delta_ij with non-applicable regions skipped, lower stack untouched.",
+        "values, result i = default i + sum_j scalar_j * delta_ij with non-applicable regions skipped, lower stack untouched. The tables seac and CID-keyed fonts resolve glyphs through: custom charset formats 0/1/2 (5 glyphs, every SID and range): glyph -> id and id -> first glyph vs the TN5176 expansion (found and repaired a glyph id overflow), ISOAdobe, FDSelect formats 0 and 3 for every glyph id.",
         "Outside (most of the property): the interpreter loop - operator decoding inside a program, width prefix, stem counting and hint-mask length, callsubr/callgsubr "
         "and the choice of the local INDEX per FD, nesting limit, seac, vsindex/blend argument handling - CBMC does not finish on it even for a fully concrete program. "
         "Operands are small integers (fractional 16.16 operands and magnitudes above 127 are outside), operand stacks longer than 13, bounding box. One genuine defect found and repaired (blend with zero regions).",
